@@ -175,6 +175,29 @@ func checkRunner(t ev.T, test string, c RunnerCase) {
 		}()
 	}
 	store := parallelisation.NewCancelFunctionsStore()
+	// stall monitor: the clauses bounded by whole seconds presuppose a machine on which a runnable goroutine gets a
+	// processor within a fraction of that; a 1 ms ticker of this process that was itself held up for more than 100 ms says
+	// it did not (overloaded machine, shard confined to one processor)
+	var maxGap atomic.Int64
+	monitorDone := make(chan struct{})
+	defer close(monitorDone)
+	go func() {
+		last := time.Now()
+		for {
+			select {
+			case <-monitorDone:
+				return
+			default:
+			}
+			time.Sleep(time.Millisecond)
+			now := time.Now()
+			if g := int64(now.Sub(last)); g > maxGap.Load() {
+				maxGap.Store(g)
+			}
+			last = now
+		}
+	}()
+	stalled := func() bool { return time.Duration(maxGap.Load()) > 100*time.Millisecond }
 	done := make(chan error, 1)
 	go func() {
 		var err error
@@ -208,6 +231,11 @@ func checkRunner(t ev.T, test string, c RunnerCase) {
 		returnedAt = time.Now()
 	case <-time.After(limit + timeout + 2*time.Second):
 		dump := dumpRunner()
+		if stalled() {
+			ev.Inconclusive("the process was held up for more than 100 ms while a runner was expected to return: not judged")
+			// (the goroutines are left to finish by themselves)
+			return
+		}
 		if o.returnedAt.Load() != 0 || !o.started.Load() {
 			ev.Fail(t, prop, test, c, "the runner has not returned 2 s after the action returned (action returned: %v); runner goroutines: %s", o.returnedAt.Load() != 0, dump)
 		}
@@ -278,7 +306,9 @@ func checkRunner(t ev.T, test string, c RunnerCase) {
 		ev.Class("around-or-after-deadline")
 	}
 	// the stop signal is triggered: an action still polling it a full second after the deadline must have seen it
-	if c.Observes && !o.sawSignal.Load() && ta.After(earliestSignal.Add(eps+time.Second)) {
+	if c.Observes && !o.sawSignal.Load() && ta.After(earliestSignal.Add(eps+time.Second)) && stalled() {
+		ev.Inconclusive("the process was held up for more than 100 ms while an action was polling its stop signal: not judged")
+	} else if c.Observes && !o.sawSignal.Load() && ta.After(earliestSignal.Add(eps+time.Second)) {
 		ev.Fail(t, prop, test, c, "the action polled its stop signal until %v after the deadline and never saw it (runner returned %v)", ta.Sub(earliestSignal).Round(time.Millisecond), err)
 	}
 	// no early verdict: a timeout / cancelled kind cannot be reported before the earliest signal instant
